@@ -79,11 +79,6 @@ func (e errInfra) Error() string { return e.msg }
 
 func infraf(format string, a ...any) error { return errInfra{fmt.Sprintf(format, a...)} }
 
-func isInfra(err error) bool {
-	var e errInfra
-	return errors.As(err, &e)
-}
-
 // ---- the real runtime ------------------------------------------------------------------
 
 type metaSource struct {
